@@ -68,38 +68,45 @@ Qed.
 Print Assumptions integer_operators_ac.
 
 (* ---------------------------------------------------------------------- sorts *)
-(* sort_permutation -- qutil_qsort, qutil_aligned_qsort, qt_qsort are the instances P = qutil_params / qt_params:
-   for every comparison, every parameter record (chunk, thread count, cutoff, threshold), every input, fuel and
-   segment: a run of the model that returns has only permuted the allocation (every mutation is a SWAP inside it;
+(* sort_permutation -- qutil_qsort, qutil_aligned_qsort, qt_qsort are the instances P = qutil_params / qt_params of
+   qsort_inner_gen true true (the code as it is now; the other flag values are the code before the pivot-is-maximum
+   rule / before the no-progress exit of the partition loop): for every comparison, parameter record, rule, input,
+   fuel and segment, a run that returns has only permuted the allocation (every mutation is a SWAP inside it;
    the sort used below the cutoff is assumed to permute its segment). *)
 Theorem sort_permutation : forall (V : Type) (leb : V -> V -> bool) (dflt : V) (bound : N)
   (base_sort : arr V -> N -> N -> arr V) (P : params),
   (forall a b len, (b + len <= bound)%N ->
      Permutation (to_list V dflt a bound) (to_list V dflt (base_sort a b len) bound)) ->
-  forall fuel wfuel a b len a',
-  qsort_inner V leb dflt bound base_sort P fuel wfuel a b len = Some a' ->
+  forall newrule stall_exit fuel wfuel a b len a',
+  qsort_inner_gen V leb dflt bound base_sort P newrule stall_exit fuel wfuel a b len = Some a' ->
   Permutation (to_list V dflt a bound) (to_list V dflt a' bound).
 Proof. exact SortProofs.qsort_permutation. Qed.
 Print Assumptions sort_permutation.
 
-(* qsort_terminates (the full statement: for every input some fuel suffices) is REFUTED on the faithful model:
-   when tri-median, partition and fix-up leave a segment above the cutoff unchanged with everything <= pivot,
-   the call recurses on itself with any fuel (known finding qsort-constant-above-cutoff) ... *)
-Theorem qsort_stuck_when_pivot_is_maximum : forall (V : Type) (leb : V -> V -> bool) (dflt : V) (bound : N)
-  (base_sort : arr V -> N -> N -> arr V) (P : params) wfuel a b len lw rw,
-  p_small P len = false ->
-  trimedian V leb dflt bound a b len = Some a ->
-  walls V leb dflt bound P wfuel a b (p_thresh P len) (aget V dflt a (b + len / 2)%N) 0%N (len - 1)%N = Some (a, lw, rw) ->
-  fixup V leb dflt bound a b len (aget V dflt a (b + len / 2)%N) lw rw = Some (a, len) ->
-  (0 < len)%N ->
-  forall fuel, qsort_inner V leb dflt bound base_sort P fuel wfuel a b len = None.
-Proof. exact SortProofs.qsort_inner_stuck. Qed.
-Print Assumptions qsort_stuck_when_pivot_is_maximum.
+(* the parallel-partition loop with the no-progress exit terminates: when every pass returns, gap+1 passes suffice
+   (the gap strictly shrinks on every pass that does not leave the loop) *)
+Theorem partition_loop_terminates : forall (V : Type) (leb : V -> V -> bool) (dflt : V) (bound : N) (P : params)
+  wfuel a b thresh pivot lwall rwall,
+  (forall a0 b0 l0 p0, partitioner V leb dflt bound P a0 b0 l0 p0 <> None) ->
+  (N.to_nat (rwall - lwall) < wfuel)%nat ->
+  walls V leb dflt bound P true wfuel a b thresh pivot lwall rwall <> None.
+Proof. exact SortProofs.walls_terminates. Qed.
+Print Assumptions partition_loop_terminates.
 
-(* ... and the witness: equal elements, one more than the cutoff (scaled-down parameters: chunk 2, cutoff 4) *)
-Theorem qsort_const_refuted : exists l : list Z, l <> [] /\ forall fuel wfuel, small_qsort 5 fuel wfuel l = None.
-Proof. exists [7; 7; 7; 7; 7]%Z. split; [discriminate|exact SortProofs.qsort_const_diverges]. Qed.
-Print Assumptions qsort_const_refuted.
+(* qsort_terminates_partial: the recursion measure.  Whenever one node (tri-median, partition passes, fix-up, pivot rule)
+   returns with rightwall < len, and 0 < rightwall unless pivots_done (NodeOK: the partition postcondition, assumed),
+   every recursive call is on a strictly shorter segment and fuel = len + 1 is enough, for every input. *)
+Theorem qsort_terminates_partial : forall (V : Type) (leb : V -> V -> bool) (dflt : V) (bound : N)
+  (base_sort : arr V -> N -> N -> arr V) (P : params) newrule stall_exit wfuel,
+  NodeOK V leb dflt bound P newrule stall_exit wfuel ->
+  forall fuel a b len, (b + len <= bound)%N -> (N.to_nat len < fuel)%nat ->
+  qsort_inner_gen V leb dflt bound base_sort P newrule stall_exit fuel wfuel a b len <> None.
+Proof. exact SortProofs.qsort_terminates_partial. Qed.
+Print Assumptions qsort_terminates_partial.
+
+(* regression (Examples in Util/SortProofs.v): qsort_const_diverged_old -- the code before the pivot rule recurses for ever
+   on equal elements (qsort_old_stuck: the mechanism); qsort_stall_old_rule -- the partition loop before the no-progress
+   exit repeats the same pass; qsort_const_returns / qsort_mostly_max_returns / qsort_stall_fixed -- the current rules return. *)
 
 (* ---------------------------------------------------------------------- allpairs *)
 (* allpairs_exact: every unit-to-sub-queue assignment, every number of workers >= 1, every schedule: no unit is
